@@ -4,9 +4,10 @@ import Dnp3.Proofs.OutstationC05
 # C05 — A retransmitted request is answered from memory and never executed twice
 
 Restated verbatim from `Dnp3.Proofs.OutstationC05` (`IsRepeat`, `isExec`, `rxAccept` live there).
-Known findings kept as exact characterisations: D14 (the idle-path echo re-ORs the current IIN),
-D5 (echo of a READ repeated during the confirm wait of a later fragment splices two fragments:
-only the single-fragment `_partial` is proved).
+Known finding kept as exact characterisation: D14 (the idle-path echo re-ORs the current IIN).
+Defect D5 (echo of a READ repeated during the confirm wait of a later fragment spliced two fragments) is
+repaired: the continuation fragment becomes the stored response (`continuation_is_stored`), so the full
+C05.4 holds (`resend_is_stored_fragment`, `resend_is_awaited_fragment`).
 -/
 namespace Dnp3.Props.C05
 open Dnp3 Dnp3.Proofs.C05 Dnp3.Proofs.C04
@@ -116,17 +117,16 @@ theorem unsolWaitOnFragment_keeps_unsolBuf (a : Acc) (resp : Resp) (isNull : Boo
     KeepsUnsol a (accOf (unsolWaitOnFragment a resp isNull)) :=
   @Dnp3.Proofs.C05.unsolWaitOnFragment_keeps_unsolBuf a resp isNull
 
-/-- **C05.4 (`resend_is_earlier_fragment_partial`)**: a READ repeated during the solicited confirm wait
+/-- **C05.4 (`resend_is_stored_fragment`)**: a READ repeated during the solicited confirm wait
     (same sequence number and bytes as the last recorded request) is answered by `repeatSolicited` of the
     STORED response header over the CURRENT solicited buffer.  PROVIDED the buffer still is what the
-    transmission of that stored response left (true for single-fragment responses, where the stored response
-    is the fragment awaiting confirmation), the echo is byte-for-byte that fragment.
+    transmission of that stored response left, the echo is byte-for-byte that fragment; the buffer and the
+    stored request are left as they were, so the statement applies again to a further repeat.
 
-    NOT proved here: `echo_splice_counterexample` (defect D5).  For a multi-fragment response `lastReq.response`
-    keeps the FIRST fragment's header/size while `solBuf` already holds a later fragment, so the hypothesis
-    `hbuf` fails and the echo is a mixture; exhibiting that needs a `Db.writeResponse` returning a
-    non-complete result, which the current `Db` stub never does. -/
-theorem resend_is_earlier_fragment_partial {a : Acc} {f : Frag} {ctrl : AppCtrl}
+    (Since the repair of defect D5 the stored response is the fragment awaiting confirmation for EVERY
+    fragment of a series — `continuation_is_stored` — so the proviso holds throughout the confirm wait:
+    `resend_is_awaited_fragment`.) -/
+theorem resend_is_stored_fragment {a : Acc} {f : Frag} {ctrl : AppCtrl}
     {objects : Except Nat (List ObjHdr)} {raw : List Nat} {last : LastReq} {hs : List ObjHdr} {r : Resp}
     (series : Series) (deadline : Nat) (cont : SolCont) (a00 : Acc) (dst0 : Nat)
     (hp : a.1.pending = some f) (hq : parseRequest f.data = .request ctrl 1 objects raw)
@@ -136,7 +136,63 @@ theorem resend_is_earlier_fragment_partial {a : Acc} {f : Frag} {ctrl : AppCtrl}
     (hbuf : a.1.solBuf = (repeatSolicited a00 dst0 r).1.solBuf) :
     ∃ bytes a', (repeatSolicited a00 dst0 r).2 = a00.2 ++ [.tx dst0 bytes] ∧
       solWaitOnFragment a series deadline cont = .blocked a' ∧
-      a'.2 = a.2 ++ [.tx f.src bytes] ∧ a'.1.solBuf = a.1.solBuf :=
-  @Dnp3.Proofs.C05.resend_is_earlier_fragment_partial a f ctrl objects raw last hs r series deadline cont a00 dst0 hp hq hm hl hseq hfrag hu hobj hresp hbuf
+      a'.2 = a.2 ++ [.tx f.src bytes] ∧ a'.1.solBuf = a.1.solBuf ∧ a'.1.lastReq = a.1.lastReq :=
+  @Dnp3.Proofs.C05.resend_is_stored_fragment a f ctrl objects raw last hs r series deadline cont a00 dst0 hp hq hm hl hseq hfrag hu hobj hresp hbuf
+
+/-- **C05.4 (`continuation_is_stored`, the D5 repair)**: a matching CONFIRM on a non-final fragment of a
+    response series: either the IIN cannot be computed and the task dies (`writeSolicited … = none`, i.e.
+    `unwrittenClasses = none`, defect D3 — nothing to do with D5), or the next fragment is transmitted exactly
+    as `repeatSolicited a00 f.src r2` would for some accumulator `a00` and response record `r2`, and the
+    session continues (resumes the idle pass if no confirmation is needed, else blocks in the confirm wait of
+    that fragment) from an accumulator `a2` whose stored response is `r2` and whose solicited buffer is what
+    that transmission left. -/
+theorem continuation_is_stored {a : Acc} {f : Frag} {ctrl : AppCtrl} {objects : Except Nat (List ObjHdr)}
+    {raw : List Nat} (series : Series) (dl : Nat) (cont : SolCont)
+    (hp : a.1.pending = some f) (hq : parseRequest f.data = .request ctrl 0 objects raw)
+    (hm : a.1.cfg.anymaster = true ∨ f.src = a.1.cfg.master)
+    (hu : ctrl.uns = false) (hs : ctrl.seq = series.ecsn) (hfin : series.fin = false) :
+    (∃ a1, solWaitOnFragment a series dl cont = die a1) ∨
+    ∃ (a00 : Acc) (r2 : Resp) (bytes : List Nat) (a2 : Acc) (next : Option Series),
+      (repeatSolicited a00 f.src r2).2 = a00.2 ++ [.tx f.src bytes] ∧
+      a2.2 = a00.2 ++ [.tx f.src bytes] ∧
+      a2.1.solBuf = (repeatSolicited a00 f.src r2).1.solBuf ∧
+      a2.1.lastReq = a.1.lastReq.map (fun lr => { lr with response := some r2 }) ∧
+      solWaitOnFragment a series dl cont =
+        (match next with
+         | none => resumeAfterSol a2 cont
+         | some sr => .blocked ({ a2.1 with mode := .solWait sr (a2.1.now + a2.1.cfg.ctimeout) cont }, a2.2)) :=
+  @Dnp3.Proofs.C05.continuation_is_stored a f ctrl objects raw series dl cont hp hq hm hu hs hfin
+
+/-- **C05.4 (`resend_is_awaited_fragment`, full statement)**: a READ repeated during the confirm wait of ANY
+    fragment of a response series re-sends exactly that fragment's octets.  After a matching CONFIRM on a
+    non-final fragment (and unless the task died, as in `continuation_is_stored`) the pass up to `a2` emitted
+    callbacks only (`l`) and then transmitted the continuation fragment `bytes`; the session continues from `a2`
+    as in `continuation_is_stored` (with `next = some sr` it blocks in the confirm wait of that fragment); and in
+    EVERY later accumulator `b` that still has `a2`'s solicited buffer and stored request, a READ `f'` that
+    repeats the last recorded request is answered — whatever series/deadline/continuation the wait carries —
+    by re-transmitting exactly `bytes`, leaving buffer and stored request untouched (so the same holds for the
+    next repeat). -/
+theorem resend_is_awaited_fragment {a : Acc} {f : Frag} {ctrl : AppCtrl} {objects : Except Nat (List ObjHdr)}
+    {raw : List Nat} {last : LastReq} (series : Series) (dl : Nat) (cont : SolCont)
+    (hp : a.1.pending = some f) (hq : parseRequest f.data = .request ctrl 0 objects raw)
+    (hm : a.1.cfg.anymaster = true ∨ f.src = a.1.cfg.master)
+    (hu : ctrl.uns = false) (hs : ctrl.seq = series.ecsn) (hfin : series.fin = false)
+    (hl : a.1.lastReq = some last) :
+    (∃ a1, solWaitOnFragment a series dl cont = die a1) ∨
+    ∃ (bytes : List Nat) (a2 : Acc) (next : Option Series),
+      (∃ l, a2.2 = a.2 ++ l ++ [.tx f.src bytes] ∧ ∀ o ∈ l, ∃ c, o = OOut.cb c) ∧
+      solWaitOnFragment a series dl cont =
+        (match next with
+         | none => resumeAfterSol a2 cont
+         | some sr => .blocked ({ a2.1 with mode := .solWait sr (a2.1.now + a2.1.cfg.ctimeout) cont }, a2.2)) ∧
+      ∀ (b : Acc) (f' : Frag) (ctrl' : AppCtrl) (hs' : List ObjHdr) (raw' : List Nat)
+        (series' : Series) (deadline' : Nat) (cont' : SolCont),
+        b.1.solBuf = a2.1.solBuf → b.1.lastReq = a2.1.lastReq →
+        b.1.pending = some f' → parseRequest f'.data = .request ctrl' 1 (.ok hs') raw' →
+        (b.1.cfg.anymaster = true ∨ f'.src = b.1.cfg.master) → f'.broadcast = none →
+        last.seq = ctrl'.seq → last.frag = f'.data →
+        ∃ b', solWaitOnFragment b series' deadline' cont' = .blocked b' ∧
+          b'.2 = b.2 ++ [.tx f'.src bytes] ∧ b'.1.solBuf = b.1.solBuf ∧ b'.1.lastReq = b.1.lastReq :=
+  @Dnp3.Proofs.C05.resend_is_awaited_fragment a f ctrl objects raw last series dl cont hp hq hm hu hs hfin hl
 
 end Dnp3.Props.C05
